@@ -21,7 +21,8 @@ MC = os.path.join(SORT, "TopoSortMC.tla")
 STEPS = os.path.join(SORT, "TopoSortSteps.tla")
 TRACE = os.path.join(SORT, "TopoSortTrace.tla")
 
-MAX_JUDGED = 30000        # observations sent to one trace-validation campaign
+MAX_JUDGED_THOROUGH = 30000
+MAX_JUDGED_QUICK = 3000        # observations sent to one trace-validation campaign
 OBS_PER_TLC = 15000       # observations per TLC start
 
 
@@ -61,6 +62,7 @@ class Campaign:
 
     def __init__(self, ctx):
         self.ctx = ctx
+        self.cap = MAX_JUDGED_QUICK if ctx.tier == 'quick' else MAX_JUDGED_THOROUGH
         self.instances = 0
         self.runs = 0
         self.mismatch = []      # [inst, r, runs, origin]
@@ -76,7 +78,7 @@ class Campaign:
         self.keys |= out["keys"]
         self.nontrivial += out["nontrivial"]
         for m in out["mismatch"]:
-            if len(self.mismatch) < MAX_JUDGED:
+            if len(self.mismatch) < self.cap:
                 self.mismatch.append(m + [{"source": source, "shuffle_inputs": shuffle_inputs}])
         for m in out["sample"]:
             self.sample.append(m + [{"source": source, "shuffle_inputs": shuffle_inputs}])
@@ -102,9 +104,8 @@ def _replay_emitted(ctx, camp, res, source, pool, mode, shuffle_inputs, sample_e
         camp.absorb(out, source, shuffle_inputs)
     if keep_lines is not None:
         for i, line in enumerate(_emitted_lines(res)):
-            if i >= keep_lines[0]:
-                break
-            keep_lines[1].append(line)
+            if i % keep_lines[0] == 0:
+                keep_lines[1].append(line)
     return camp.instances - n0
 
 
@@ -157,11 +158,17 @@ def report(ctx, observations, verdicts, origin_default="replay"):
         any_fail = False
         for j, run in enumerate(runs):
             api, runidx, out, after = run
-            for clause in v["failed"][j]:
+            clauses = list(v["failed"][j])
+            if len(clauses) > 1 and "ExceptionType" in clauses:
+                clauses.remove("ExceptionType")      # already reported through the clause it breaks
+            for clause in clauses:
                 any_fail = True
                 outc = out if out in ("ok", "ValueError") else out.replace("other:", "raise-")
                 feat = meta.get("feature")
-                sig = f"C12:{clause}:{'feature-' + feat if feat else api.split('@')[0]}:{outc}:{_shape_class(inst)}"
+                if feat:
+                    sig = f"C12:{clause}:feature-{feat}:{outc}"
+                else:
+                    sig = f"C12:{clause}:{api.split('@')[0]}:{outc}:{_shape_class(inst)}"
                 ctx.violation(sig, {
                     "message": f"{clause} violated by {api} on instance gOf={inst[0]} owner={inst[1]} order={inst[2]} ins={inst[3]} "
                                f"start graph {r}: outcome {out}, orders after {after}",
@@ -231,7 +238,8 @@ def _feature_runs(ctx, lines):
     type GRAPH / GRAPHS (no nested nodes) on a node of an otherwise ordinary instance."""
     obs = []
     picked = 0
-    for line in lines:
+    rng = random.Random(ctx.seed ^ 0xFEA7)
+    for line in rng.sample(lines, len(lines)):
         rec = json.loads(json.loads(line))
         inst, res = rec[:4], rec[4]
         if len(inst[0]) < 2 or res[0] == 0 or [list(o) for o in res[0]] == [list(o) for o in inst[2]]:
@@ -293,13 +301,9 @@ def run_engine(ctx):
         # 2. exhaustive enumeration by TLC, replay of every emitted instance
         for cfg, source, mode, shuffle_inputs, sample_every in exhaustive_cfgs:
             res = ctx.tlc(MC, _cfg(cfg), tag="mc-" + cfg[11:-4], deadlock=False, workers=workers,
-                          coverage=(cfg == "TopoSortMC_q3.cfg"), timeout=3000, heap="12g")
+                          timeout=7200, heap="12g")
             _require(res, cfg)
-            if cfg == "TopoSortMC_q3.cfg":
-                a = {k.split("!")[1]: v[0] for k, v in res.coverage.items() if k.startswith("TopoSortMC!")}
-                if not a.get("Choose") or not a.get("Sort"):
-                    raise MachineryError(f"TopoSortMC actions never taken: {a}")
-            keep = (3000, kept) if cfg == "TopoSortMC_q3.cfg" else None
+            keep = (7, kept) if cfg == "TopoSortMC_q3.cfg" else None   # every 7th emitted instance
             n = _replay_emitted(ctx, camp, res, source, pool, mode, shuffle_inputs, sample_every, keep)
             if n == 0:
                 raise MachineryError(f"{cfg}: TLC emitted no instance")
@@ -338,7 +342,7 @@ def run_engine(ctx):
     #    the conforming observations (all of the simulated ones in the quick tier)
     rng = random.Random(ctx.seed)
     sample = camp.sample
-    room = MAX_JUDGED - len(camp.mismatch) - len(hs_bad) - len(feature_obs)
+    room = camp.cap - len(camp.mismatch) - len(hs_bad) - len(feature_obs)
     if len(sample) > max(room, 0):
         sample = rng.sample(sample, max(room, 0))
     observations = camp.mismatch + hs_bad + feature_obs + sample
@@ -351,7 +355,15 @@ def run_engine(ctx):
         accepted, div = report(ctx, observations, verdicts)
         ctx.validated += accepted
         ctx.extra["divergences"] = div
-    for o in (camp.sample[:2] + camp.mismatch[:1]):
+    def interest(o):
+        inst = o[0]
+        changed = any(run[2] == "ok" and run[3] != [list(x) for x in inst[2]] for run in o[2])
+        cyc = any(run[2] == "ValueError" for run in o[2])
+        return (2 * changed + (len(inst[1]) > 1) + 0.5 * cyc, -abs(len(inst[0]) - 4))
+
+    picks = sorted(camp.sample, key=interest, reverse=True)
+    chosen = picks[:1] + [o for o in picks if any(run[2] == "ValueError" for run in o[2]) and len(o[0][1]) > 1][:1]
+    for o in (chosen + picks[1:3] + camp.mismatch[:1])[:3]:
         ctx.case(sample={"instance[gOf,owner,order,ins]": o[0], "start_graph": o[1], "runs[api,run,outcome,after]": o[2]}, n=0)
 
     # C14 note: does the pass report modified correctly?
